@@ -291,6 +291,22 @@ func TestC18(t *testing.T) {
 			if os.MkdirAll(filepath.Join(dir, "real2", "inner"), 0o755) == nil && os.Symlink(filepath.Join("real2", "inner"), filepath.Join(dir, "hop")) == nil {
 				spellings = append(spellings, filepath.Dir(root)+"/hop/../../"+base)
 			}
+			// ... through a link to one of its sub-directories followed by ".." (the root ends in ".."),
+			// and as a symbolic link to the tree written with a trailing separator (which names the
+			// directory, where the bare link would name the link)
+			if ents, err := os.ReadDir(root); err == nil {
+				for _, e := range ents {
+					if e.IsDir() {
+						if os.Symlink(filepath.Join("root", e.Name()), filepath.Join(dir, "hop2")) == nil {
+							spellings = append(spellings, filepath.Join(dir, "hop2")+"/..")
+						}
+						break
+					}
+				}
+			}
+			if os.Symlink("root", filepath.Join(dir, "rootlink")) == nil {
+				spellings = append(spellings, filepath.Join(dir, "rootlink")+"/")
+			}
 			spelled := spellings[i%len(spellings)]
 			var l3 ipld.Link
 			var err3 error
